@@ -382,17 +382,19 @@ struct Ops {
             using CRT = std::common_type_t<R1, R2>;
             if constexpr (requires(E1 d, R2 v) { d * v; v * d; d / v; d % v; }) {
                 E1 const d{c};
-                static_assert(std::is_same_v<decltype(d * x), ec::duration<CRT, EP1>>);
-                static_assert(std::is_same_v<decltype(x * d), ec::duration<CRT, EP1>>);
-                static_assert(std::is_same_v<decltype(d / x), ec::duration<CRT, EP1>>);
-                static_assert(std::is_same_v<decltype(d % x), ec::duration<CRT, EP1>>);
+                // the result types, reported as a value (a changed library must show up as a failing case)
+                constexpr bool types = std::is_same_v<decltype(d * x), ec::duration<CRT, EP1>>
+                    && std::is_same_v<decltype(x * d), ec::duration<CRT, EP1>>
+                    && std::is_same_v<decltype(d / x), ec::duration<CRT, EP1>>
+                    && std::is_same_v<decltype(d % x), ec::duration<CRT, EP1>>;
                 impl.tok("ok").num((d * x).count()).num((x * d).count()).num((d / x).count()).num((d % x).count());
+                impl.b(types);
             } else {
                 impl.tok("illformed");
             }
             S1 const d{c};
             static_assert(std::is_same_v<decltype(d * x), sc::duration<CRT, SP1>>);
-            ref.tok("ok").num((d * x).count()).num((x * d).count()).num((d / x).count()).num((d % x).count());
+            ref.tok("ok").num((d * x).count()).num((x * d).count()).num((d / x).count()).num((d % x).count()).b(true);
             return true;
         }
         case OP_TP_ARITH: {
@@ -404,15 +406,16 @@ struct Ops {
                 E2 const d{c2};
                 ET2 const u{d};
                 using ECD = etl::common_type_t<E1, E2>;
-                static_assert(std::is_same_v<decltype(t + d), ec::time_point<ec::system_clock, ECD>>);
-                static_assert(std::is_same_v<decltype(d + t), ec::time_point<ec::system_clock, ECD>>);
-                static_assert(std::is_same_v<decltype(t - d), ec::time_point<ec::system_clock, ECD>>);
-                static_assert(std::is_same_v<decltype(t - u), ECD>);
+                constexpr bool types = std::is_same_v<decltype(t + d), ec::time_point<ec::system_clock, ECD>>
+                    && std::is_same_v<decltype(d + t), ec::time_point<ec::system_clock, ECD>>
+                    && std::is_same_v<decltype(t - d), ec::time_point<ec::system_clock, ECD>>
+                    && std::is_same_v<decltype(t - u), ECD>;
                 impl.tok("ok")
                     .num((t + d).time_since_epoch().count())
                     .num((d + t).time_since_epoch().count())
                     .num((t - d).time_since_epoch().count())
-                    .num((t - u).count());
+                    .num((t - u).count())
+                    .b(types);
             } else {
                 impl.tok("illformed");
             }
@@ -423,7 +426,8 @@ struct Ops {
                 .num((t + d).time_since_epoch().count())
                 .num((d + t).time_since_epoch().count())
                 .num((t - d).time_since_epoch().count())
-                .num((t - u).count());
+                .num((t - u).count())
+                .b(true);
             i128 ex = c1 * X.f1() + c2 * X.f2(), exm = c1 * X.f1() - c2 * X.f2();
             if ((t + d).time_since_epoch().count() != ex || (t - u).count() != exm) { ref.tok("!exact"); }
             return true;
@@ -444,7 +448,7 @@ struct Ops {
         case OP_PERIOD: {
             // constant evaluation takes the same path: for the core pairs the four conversions, the arithmetic and the
             // comparisons of a few small counts are evaluated by the compiler and compared with std::chrono there
-            if constexpr (I < CORE && J < CORE) {
+            if constexpr (I < CORE && J < CORE && RC == 0) {
                 constexpr auto ct = [](long long v) {
                     auto const c = static_cast<R1>(v);
                     auto const k = static_cast<R2>(v / 3 + 1);
@@ -460,7 +464,11 @@ struct Ops {
                         && ec::abs(E1{c}).count() == sc::abs(S1{c}).count()
                         && (E1{c} * k).count() == (S1{c} * k).count();
                 };
-                static_assert(ct(7) && ct(-7) && ct(1500) && ct(-1500) && ct(90) && ct(-30));
+                // (reported as a value, not a static_assert: a changed library must show up as a failing case)
+                constexpr bool agree = ct(7) && ct(-7) && ct(1500) && ct(-1500) && ct(90) && ct(-30);
+                impl.tok("ok").num(E1::period::num).num(E1::period::den).b(agree);
+                ref.tok("ok").num(S1::period::num).num(S1::period::den).b(true);
+                return true;
             }
             impl.tok("ok").num(E1::period::num).num(E1::period::den);
             ref.tok("ok").num(S1::period::num).num(S1::period::den);
